@@ -688,3 +688,5 @@ func label(c *harness.Case, cond bool, l string) {
 		c.Label(l)
 	}
 }
+
+func (e *events) isSlashed(a string) bool { _, ok := e.slashed[a]; return ok }
